@@ -18,6 +18,7 @@ func (u *UseCase) Store(ctx context.Context, f model.File) error {
 		u.txStore.Put(f.TxId, tx)
 	}
 
+	verifhook.At("core.store.lock")
 	tx.Lock()
 	u.allStore.Lock()
 	defer func() {
